@@ -88,6 +88,10 @@ func zzH_C08_parts() {
 		_, isMap := doc.(map[string]interface{})
 		zzAssume(isMap)
 	}
+	if zzParam("objects_only") == "arrays" {
+		_, isMap := doc.(map[string]interface{})
+		zzAssume(!isMap)
+	}
 	r, rerr := fF(doc)
 	var cat []interface{}
 	for _, f := range fs {
